@@ -173,6 +173,8 @@ def run(ctx):
             ctx.violation(f"TensorProduct/irreps_out-dim/{n}", {"reported": tp.irreps_out.dim, "actual": st.get("out_shape")}, True)
     view_aliasing(ctx, o3)
     linear_part(ctx, o3)
+    import extra_oracles
+    extra_oracles.c19_views_after_conversion(ctx, o3)
     ctx.notes["rule"] = "one introspection certificate per generated program (mask ⇔ zero polynomial, weight slices ⇔ paths, sizes); view-aliasing histories on internal-weight modules"
     ctx.assumptions += [
         "mask[k]=1 ⇒ not identically zero relies on a single-term coefficient q·√r ≠ 0 of a monomial with distinct variables (sound; see Props/C19)",
